@@ -97,7 +97,7 @@ that case is only covered by the empirical perturbation runs of the check (C12 i
 crops are eaten by people, the percent fed rises, and a negative limit would then bite (2 months,
 stored food + SCP, `limScpH = −100`, `pop = 0`, storage between years, stock 2, feed `[1,1] → [0,0]`:
 the stock must now be eaten by people, so some month has percent fed > 0 and SCP to people < 0).
-Waste percentages: decreasing a waste percentage is likewise covered only empirically. -/
+Waste percentages: see the last section. -/
 
 theorem charge_antitone_partial (i : Inp K) (feed' biofuel' : List K) (hs : i.addSeaweed = false)
     (hf : SeriesLe feed' i.feed) (hb : SeriesLe biofuel' i.biofuel)
@@ -107,5 +107,59 @@ theorem charge_antitone_partial (i : Inp K) (feed' biofuel' : List K) (hs : i.ad
     (x : Var → K) (h : Feasible (buildLP i .toHumans) x) :
     ∃ x', Feasible (buildLP { i with feed := feed', biofuel := biofuel' } .toHumans) x' ∧ x .objective ≤ x' .objective :=
   Proofs.Perturb.charge_antitone_partial i feed' biofuel' hs hf hb hf0 hb0 hwS0 hwS hwC0 hwC hbkn hlim x h
+
+/-! ## retail waste percentages
+
+Lowering a retail waste percentage never lowers the optimum of the human round: people keep drawing
+the same gross amount from the stock / the harvest and receive `(1 − w'/100)/(1 − w/100)` times as
+much.  Proved for stored food and crops, for all inputs with `w < 100`, `0 ≤ billionKcalsNeeded`
+and non-negative human intake limits (`hlim`, `hb`: the percent fed of a month rises, cf.
+`limits_needed_counterexample`; with a negative requirement and negative milk the optimum really
+falls: 2 months, stored food with storage between years, stock 1, `bkn = −100`, milk `[−1, −1]`,
+waste 50 % → 0 %: percent fed of a month is `1 − humans`, best worst-month 0.75 before, 0.5 after).
+`0 ≤ w'` and `2 ≤ nmonths` are not needed.
+For seaweed the statement is FALSE: the harvest can be compulsory (density ceiling) and the larger
+amount people would receive can exceed their intake cap (`mono_wasteSeaweed_counterexample`);
+`mono_wasteSeaweed_partial` assumes that the two human intake caps of seaweed survive.
+The distribution-side wastes are applied before the LP is built and do not appear in `Inp`: nothing
+to prove about them here (the check varies them empirically). -/
+
+theorem mono_wasteStored (i : Inp K) (w' : K) (hw' : w' ≤ i.wStored) (hw : i.wStored < 100)
+    (hb : 0 ≤ i.billionKcalsNeeded) (hlim : 0 ≤ i.limSwH ∧ 0 ≤ i.limScpH ∧ 0 ≤ i.limCsH)
+    (x : Var → K) (h : Feasible (buildLP i .toHumans) x) :
+    ∃ x', Feasible (buildLP { i with wStored := w' } .toHumans) x' ∧ x .objective ≤ x' .objective :=
+  Proofs.Perturb.mono_wasteStored i w' hw' hw hb hlim x h
+
+theorem mono_wasteCrop (i : Inp K) (w' : K) (hw' : w' ≤ i.wCrop) (hw : i.wCrop < 100)
+    (hb : 0 ≤ i.billionKcalsNeeded) (hlim : 0 ≤ i.limSwH ∧ 0 ≤ i.limScpH ∧ 0 ≤ i.limCsH)
+    (x : Var → K) (h : Feasible (buildLP i .toHumans) x) :
+    ∃ x', Feasible (buildLP { i with wCrop := w' } .toHumans) x' ∧ x .objective ≤ x' .objective :=
+  Proofs.Perturb.mono_wasteCrop i w' hw' hw hb hlim x h
+
+/-- seaweed: a 2-month instance over ℚ (1 t on 1 km² at the density ceiling doubling in month 1,
+    intake cap 0.5, waste 50 % → 0 %) that is feasible before and infeasible after -/
+theorem mono_wasteSeaweed_counterexample :
+    ∃ (i : Inp ℚ) (w' : ℚ) (x : Var → ℚ), 0 ≤ w' ∧ w' ≤ i.wSeaweed ∧ i.wSeaweed < 100 ∧
+      0 < i.billionKcalsNeeded ∧ (0 ≤ i.limSwH ∧ 0 ≤ i.limScpH ∧ 0 ≤ i.limCsH) ∧
+      0 ≤ i.seaweedKcals ∧ Feasible (buildLP i .toHumans) x ∧
+      ¬ ∃ x', Feasible (buildLP { i with wSeaweed := w' } .toHumans) x' :=
+  Proofs.Perturb.mono_wasteSeaweed_counterexample
+
+/-- seaweed, under the proviso `hcaps` that the larger amount people receive still respects
+    seaweed's two human intake caps (full population; population actually fed) -/
+theorem mono_wasteSeaweed_partial (i : Inp K) (w' : K) (hw' : w' ≤ i.wSeaweed) (hw : i.wSeaweed < 100)
+    (hb : 0 ≤ i.billionKcalsNeeded) (hkc : 0 ≤ i.seaweedKcals)
+    (hlim : 0 ≤ i.limScpH ∧ 0 ≤ i.limCsH)
+    (x : Var → K) (h : Feasible (buildLP i .toHumans) x)
+    (hcaps : i.addSeaweed = true → ∀ m, m < i.nmonths →
+      (1 - w' / 100) / (1 - i.wSeaweed / 100) * x (.mv .swHumans m) * i.seaweedKcals
+        ≤ i.limSwH / 100.0 * (i.pop * i.kcalsMonthly / 1e9) ∧
+      (1 - w' / 100) / (1 - i.wSeaweed / 100) * x (.mv .swHumans m) * i.seaweedKcals
+        ≤ i.limSwH / 100.0 *
+          ((x (.mv .consumedKcals m)
+            + ((1 - w' / 100) / (1 - i.wSeaweed / 100) - 1) * x (.mv .swHumans m) * i.seaweedKcals
+                / i.billionKcalsNeeded * 100) * i.billionKcalsNeeded / 100.0)) :
+    ∃ x', Feasible (buildLP { i with wSeaweed := w' } .toHumans) x' ∧ x .objective ≤ x' .objective :=
+  Proofs.Perturb.mono_wasteSeaweed_partial i w' hw' hw hb hkc hlim x h hcaps
 
 end Allfed.C12
